@@ -59,6 +59,8 @@ def gen_lit(rng, depth=0):
     dq = rng.random() < 0.5
     q = '"' if dq else "'"
     body = "".join(rng.choice(body_alphabet) for _ in range(rng.choice([0, 1, 3, 6, 12])))
+    if rng.random() < 0.3:      # a string whose content looks like another literal
+        body = rng.choice(["42", "3.5", "True", "[1, 2]", "None", "1e3", "007", "(1, 2)", "-7", "0.5e-3"])
     body = body.replace(q, "")
     return ("str", dq, body)
 
@@ -283,11 +285,59 @@ def section_tree(obj):
     for name, val in vars(obj).items():
         if name not in seen:
             cs.append([name, "rw", {"v": canon_py(val)}])
-    return {"k": "obj", "c": cs}
+    return {"k": "obj", "c": cs + class_slots(obj)}
+
+
+def class_attr_names(obj):
+    """names that `hasattr(obj, …)` finds on the CLASS and that are no settings: methods, dunder names, class
+    constants — not properties, not instance attributes, not declared arguments"""
+    cls = type(obj)
+    inst = vars(obj) if hasattr(obj, "__dict__") else {}
+    declared = getattr(obj, "_arguments", {}) if type(obj).__name__ == "Arguments" else {}
+    out = []
+    for n in dir(cls):
+        if n in inst or n in declared or isinstance(getattr(cls, n, None), property):
+            continue
+        try:
+            getattr(obj, n)
+        except Exception:  # noqa: BLE001
+            continue
+        out.append(n)
+    return out
+
+
+def class_slots(obj, acc="m"):
+    out = []
+    for n in class_attr_names(obj):
+        c = canon_obj(getattr(obj, n))
+        out.append([n, acc, {"v": c["v"]} if "v" in c else {"k": c["node"], "c": []}])
+    return out
+
+
+def extras_of(proc):
+    """class-level attributes of the objects the Lean side builds itself"""
+    pipe = proc.pipeline
+    grp = next((getattr(pipe, g) for g in pipe.model_group_names if getattr(pipe, g) is not None), None)
+    model = grp.models[0] if grp is not None else None
+    return {"processor": class_slots(proc), "pipeline": class_slots(pipe),
+            "group": class_slots(grp) if grp is not None else [],
+            "model": class_slots(model) if model is not None else [],
+            "args": class_slots(model.arguments, "ma") if model is not None else []}
+
+
+def is_class_attr_key(proc, key):
+    """ground truth: does the key's last part name a class-level attribute (no setting) of the object it is on?"""
+    obj = proc
+    for part in key[:-1]:
+        try:
+            obj = getattr(obj, part)
+        except Exception:  # noqa: BLE001
+            return False
+    return type(obj).__name__ if (key and key[-1] in class_attr_names(obj)) else False
 
 
 def detector_tree(det):
-    return {"k": "obj", "c": [[s, "ro", section_tree(getattr(det, s))] for s in SECTIONS]}
+    return {"k": "obj", "c": [[s, "ro", section_tree(getattr(det, s))] for s in SECTIONS] + class_slots(det)}
 
 
 def settable_fields(det):
@@ -394,6 +444,8 @@ def as_input(rng, v):
     returns (input description, the Python value that must be read back)"""
     import numpy as np
 
+    if isinstance(v, QText):
+        return {"text": v.text}, v.denotes
     if isinstance(v, np.ndarray):
         return {"value": canon_py(v), "native": tag(v)}, v       # an array is kept as it is (type, dtype, shape)
     if isinstance(v, (list, tuple)):
@@ -456,6 +508,17 @@ def native_of(inp):
     return untag(inp["native"])
 
 
+class QText:
+    """a quoted literal given as text: it denotes the STRING inside the quotes (the way to keep `42` a label)"""
+
+    def __init__(self, text, denotes):
+        self.text, self.denotes = text, denotes
+
+
+QUOTED_TEXTS = [('"42"', "42"), ("'3.5'", "3.5"), ('"True"', "True"), ('"[1, 2]"', "[1, 2]"), ('"None"', "None"), ("'1e3'", "1e3"),
+                ('"007"', "007"), ("'(1, 2)'", "(1, 2)"), ('"-7"', "-7"), ("'abc'", "abc")]
+
+
 def array_values():
     """numpy arrays of sizes 0 / 1 / 2 / many, shapes (0,), (1,), (1, 1), (2,), 0-d, (2, 3), float and int dtypes"""
     import numpy as np
@@ -504,7 +567,7 @@ def gen_key_case(rng, world, det_probe_proc):
     det = det_probe_proc.detector
     valid = all_setting_keys(world, det)
     cls = rng.choice(["valid", "valid", "valid", "misspelt_leaf", "misspelt_leaf", "misspelt_inner", "truncated",
-                      "overlong", "absent_group", "unknown_model", "readonly"])
+                      "overlong", "absent_group", "unknown_model", "readonly", "class_attr", "class_attr"])
     base = list(rng.choice(valid))
     is_det = base[0] == "detector"
     if is_det:
@@ -518,12 +581,24 @@ def gen_key_case(rng, world, det_probe_proc):
     else:
         v = rng.choice([3, -1, 0.75, 1e-3, "abc", "image.fits", True, [1, 2.5], (0.0, 5.0), [[1, 2], [3]], 12345678901234567890,
                         [7], (7,), [0.5], ("a",)])
+        if rng.random() < 0.12:
+            v = QText(*rng.choice(QUOTED_TEXTS))
         if rng.random() < 0.35:
             v = rng.choice(array_values())
     inp, expected = as_input(rng, v)
     if cls == "valid":
         return base, cls, expected, inp
-    if cls == "misspelt_leaf":
+    if cls == "class_attr":
+        # the leaf is a method / dunder / constant of the class of the object the key is on (any level of the key)
+        depth = rng.choice([len(base) - 1, len(base) - 1, len(base) - 1, rng.randrange(0, len(base))])
+        obj = det_probe_proc
+        for part in base[:depth]:
+            obj = getattr(obj, part)
+        names = class_attr_names(obj)
+        plain = [n for n in names if not n.startswith("_")]
+        pool = plain * 3 + [n for n in names if n in ("__class__", "__dict__", "__doc__", "__eq__", "__call__", "__len__", "__iter__", "__module__", "__init__")]
+        key = base[:depth] + [rng.choice(pool or names)]
+    elif cls == "misspelt_leaf":
         key = base[:-1] + [mutate(rng, base[-1])]
     elif cls == "misspelt_inner":
         i = rng.randrange(0, len(base) - 1)
@@ -645,6 +720,7 @@ def run_key_impl(case):
     out = {}
     snap0 = raw_snapshot(proc)
     out["det_tree"] = detector_tree(proc.detector)
+    out["extras"] = extras_of(proc)
     plist = case["probes"]
     out["has"] = attempt(proc.has, dotted)
     g = attempt(proc.get, dotted)
@@ -711,6 +787,13 @@ def key_predicate(case, impl):
             return ("set-accepts-nonexistent-key", "key %r names no existing setting (has=%s) but %s accepted it; the "
                     "processor now differs at %s" % (".".join(key), impl["has"].get("ok"), case["entry"], impl["diff"] or "<nothing observable>"))
         return None
+    if case.get("class_attr"):
+        # a method / dunder / constant of the class is not a setting: the key resolves to no setting and must be refused
+        if ok:
+            return ("set-accepts-class-attribute:" + str(case["class_attr"]),
+                    "key %r names a method / class-level attribute of %s, not a setting, but %s accepted the assignment "
+                    "(processor now differs at %s)" % (".".join(key), case["class_attr"], case["entry"], impl["diff"]))
+        return None
     if cls == "valid":
         if impl["has"].get("ok") is not True:
             return "valid-key:has-false", "existing setting %r: has() = %s" % (".".join(key), strip_msg(impl["has"]))
@@ -747,7 +830,10 @@ def gen_validate_case(rng, world):
             vals = ["_", "_"]
         return ["pipeline", g, m["name"], "arguments", a], vals, cls
     if cls == "undeclared":
-        return ["pipeline", g, m["name"], "arguments", rng.choice(["nope", "levl", "Alpha", "x_"])], vals, cls
+        # ordinary typos, and names that are attributes of the `Arguments` class itself (hasattr is true for them)
+        name = rng.choice(["nope", "levl", "Alpha", "x_", "values", "items", "keys", "get", "pop", "update", "clear", "setdefault",
+                           "popitem", "__class__", "__len__"])
+        return ["pipeline", g, m["name"], "arguments", name], vals, cls
     if cls == "unknown_model":
         return ["pipeline", g, rng.choice(["nomodel", m["name"] + "_", m["name"][:-1] or "q"]), "arguments", "level"], vals, cls
     if cls == "absent_group":
@@ -756,6 +842,9 @@ def gen_validate_case(rng, world):
     if cls == "enabled_flag":
         return ["pipeline", g, m["name"], "enabled"], [True, False], cls
     if cls == "detector":
+        if rng.random() < 0.4:    # a method / dunder of a detector object: not a setting
+            sect = rng.choice(SECTIONS)
+            return ["detector", sect, rng.choice(["to_dict", "from_dict", "__eq__", "__class__", "__doc__"])], [1, 2], "class_attr"
         return ["detector", "environment", "temperature"], [100, 200], cls
     return ["detector", rng.choice(["enviroment", "environment"]), rng.choice(["temperatur", "temp"])], [100, 200], cls
 
@@ -788,7 +877,7 @@ def run_validate_impl(case):
 
     world, key, vals = case["world"], case["key"], case["values"]
     proc = build(world)
-    out = {"det_tree": detector_tree(proc.detector)}
+    out = {"det_tree": detector_tree(proc.detector), "extras": extras_of(proc)}
     try:
         obs = Observation(parameters=[ParameterValues(key=".".join(key), values=list(vals))], mode=case["mode"])
     except Exception as e:  # noqa: BLE001
@@ -831,13 +920,17 @@ def validate_predicate(case, impl):
     if case["key"][0] == "pipeline":
         ms = dict((gg, mm) for gg, mm in world["groups"]).get(case["key"][1]) or []
         m = first_named(ms, case["key"][2])
-    if cls in ("undeclared", "unknown_model", "absent_group", "detector_typo"):
-        if ok:
-            return "sweep-accepts-undeclared", "sweep key %r names nothing the configuration declares, validate_steps accepted it" % key
-        for path, run, calls in run_paths(impl):
+    if cls in ("undeclared", "unknown_model", "absent_group", "detector_typo", "class_attr"):
+        # must be an error before any pipeline runs: refused by validate_steps, or — validate_steps only asks `has`, which is
+        # true for class-level names such as `arguments.values` — by the first assignment of the sweep, on BOTH paths
+        paths = run_paths(impl)
+        if ok and not paths:
+            return None
+        for path, run, calls in paths:
             if "ok" in run or calls:
-                return ("sweep-ran-undeclared:" + path, "sweep over %r (%s observation): %d model call(s) happened / run result %s"
-                        % (key, path, calls, run))
+                return ("sweep-ran-undeclared:%s:%s" % (path, "model-argument" if case["key"][0] == "pipeline" else "detector"),
+                        "sweep over %r, which names no setting of the configuration (%s observation): "
+                        "run result %s, %d model call(s)" % (key, path, strip_msg(run), calls))
         return None
     if cls == "disabled":
         if ok:
@@ -862,6 +955,76 @@ def validate_predicate(case, impl):
     if cls == "detector":
         if not ok:
             return "sweep-rejects-detector-field", "sweep over %r refused: %s" % (key, impl["validate"])
+    return None
+
+
+# ------------------------------------------------------------------ sweep values end to end
+PLAIN_TEXTS = [("abc", "abc"), ("image.fits", "image.fits"), ("7", 7), ("2.5", 2.5), ("[1, 2]", [1, 2]), ("True", True),
+               ("1e-3", 1e-3), ("(1, 2)", (1, 2)), ("-4", -4), ("data/img_01.npy", "data/img_01.npy")]
+
+
+def gen_sweepval_case(rng, world):
+    """a sweep over a declared argument of an enabled model whose name is unique in the pipeline; values are texts
+    (quoted literals, plain literals, bare words) and numbers; returns None when the world has no such argument"""
+    names = [m["name"] for _, ms in world["groups"] for m in (ms or [])]
+    cands = [(g, m, a) for g, ms in world["groups"] for m in (ms or []) if m["enabled"] and names.count(m["name"]) == 1 for a in m["args"]]
+    if not cands:
+        return None
+    g, m, a = rng.choice(cands)
+    vals, exp = [], []
+    for _ in range(rng.choice([2, 3, 4, 5])):
+        r = rng.random()
+        if r < 0.5:
+            t, d = rng.choice(QUOTED_TEXTS)
+        elif r < 0.8:
+            t, d = rng.choice(PLAIN_TEXTS)
+        else:
+            t = d = rng.choice([7, 2.5, 0, -3, 1e-6])
+        if t in vals:
+            continue
+        vals.append(t)
+        exp.append(tag(d))
+    return {"stream": "sweepval", "world": world, "key": ["pipeline", g, m["name"], "arguments", a], "values": vals, "expected": exp,
+            "mode": rng.choice(["product", "sequential"]), "dask": rng.random() < 0.4}
+
+
+def run_sweepval_impl(case):
+    import dask
+    import probes
+    import pyx
+    from pyxel.observation import Observation, ParameterValues
+
+    out = {}
+    name, arg = case["key"][2], case["key"][4]
+    for tag_, with_dask in ((("seq", False),) + ((("dask", True),) if case["dask"] else ())):
+        probes.reset()
+        proc = build(case["world"])
+        obs = Observation(parameters=[ParameterValues(key=".".join(case["key"]), values=list(case["values"]))],
+                          mode=case["mode"], with_dask=with_dask)
+
+        def go():
+            with dask.config.set(scheduler="synchronous"):
+                res = pyx.run(obs, proc.detector, proc.pipeline)
+                return res.compute() if hasattr(res, "compute") else res
+
+        rr = attempt(go)
+        got = [json.loads(r[3]).get(arg, "<absent>") for r in probes.LOG if r[2] == name]
+        out[tag_] = {"run": "ok" if "ok" in rr else rr["err"], "msg": rr.get("msg"), "received": got}
+    return out
+
+
+def sweepval_predicate(case, impl):
+    from probes import _canon_val
+
+    want = [json.loads(json.dumps(_canon_val(untag(t)))) for t in case["expected"]]
+    for path, got in impl.items():
+        if got["run"] != "ok":
+            return "sweep-value:run-failed:" + path, "sweep of %r over %r failed: %s %s" % (".".join(case["key"]), case["values"], got["run"], got["msg"])
+        rec = got["received"]
+        bad = rec != want if path == "seq" else (sorted(map(json.dumps, rec[1:] if len(rec) > len(want) else rec)) != sorted(map(json.dumps, want)))
+        if bad:
+            return ("sweep-value:wrong-conversion:" + path, "sweep values %r denote %s but the model received %s (%s observation, %s mode)"
+                    % (case["values"], json.dumps(want), json.dumps(rec), path, case["mode"]))
     return None
 
 
@@ -925,7 +1088,7 @@ def run_history_impl(case):
     probes.reset()
     procs = [build(case["world"])]
     plist = case["probes"]
-    out = {"det_tree": detector_tree(procs[0].detector), "steps": []}
+    out = {"det_tree": detector_tree(procs[0].detector), "extras": extras_of(procs[0]), "steps": []}
     for st in case["steps"]:
         P = procs[st["proc"]]
         if st["do"] == "copy":
@@ -1041,6 +1204,7 @@ def body(ck: common.Check):
         exists = exists_by_getattr(proc, key)
         if cls == "valid" and not exists:
             continue
+        class_attr = is_class_attr_key(proc, key)
         entry = rng.choice(ENTRIES)
         if entry == "calibration":
             import numpy as np
@@ -1060,7 +1224,7 @@ def body(ck: common.Check):
         probes_ = all_setting_keys(world, proc.detector)
         if key not in probes_:
             probes_ = probes_ + [key]
-        key_cases.append({"stream": "key", "world": world, "key": key, "class": cls, "exists": exists, "entry": entry,
+        key_cases.append({"stream": "key", "world": world, "key": key, "class": cls, "exists": exists, "class_attr": class_attr, "entry": entry,
                           "input": inp, "expected": canon_py(expected) if cls == "valid" else None, "probes": probes_})
     # ---- stream 3: validate_steps / sweeps
     val_cases = []
@@ -1071,7 +1235,7 @@ def body(ck: common.Check):
         key, vals, cls = gen_validate_case(rng, world)
         cls = classify_sweep(world, key, cls)
         val_cases.append({"stream": "validate", "world": world, "key": key, "values": vals, "class": cls,
-                          "mode": rng.choice(["product", "sequential"]), "run": cls in ("disabled", "undeclared") or (i % 2 == 0 if quick else i % 4 == 0)})
+                          "mode": rng.choice(["product", "sequential"]), "run": cls in ("disabled", "undeclared", "class_attr", "detector_typo", "unknown_model", "absent_group") or (i % 2 == 0 if quick else i % 4 == 0)})
 
     # ---- stream 4: histories (several assignments on one processor interleaved with copies)
     hist_cases = []
@@ -1085,6 +1249,13 @@ def body(ck: common.Check):
             if "key" in st and st["key"] not in c["probes"]:
                 c["probes"] = c["probes"] + [st["key"]]
 
+    # ---- stream 5: sweep values end to end (what the model function receives)
+    sv_cases = []
+    for _ in range(40 if quick else 400):
+        c = gen_sweepval_case(rng, gen_world(rng))
+        if c is not None and len(c["values"]) >= 2:
+            sv_cases.append(c)
+
     # implementation first (the detector tree sent to the model is read off the real objects)
     hist_impl = [run_history_impl(c) for c in hist_cases]
     key_impl = [run_key_impl(c) for c in key_cases]
@@ -1092,11 +1263,11 @@ def body(ck: common.Check):
 
     reqs = [{"op": "eval", "text": c["text"]} for c in eval_cases]
     for c, im in zip(key_cases, key_impl):
-        r = {"op": "key", "det": im["det_tree"], "cfg": cfg_json(c["world"]), "key": c["key"], "probes": c["probes"]}
+        r = {"op": "key", "det": im["det_tree"], "extras": im["extras"], "cfg": cfg_json(c["world"]), "key": c["key"], "probes": c["probes"]}
         r.update({k: v for k, v in c["input"].items() if k not in ("native", "cal_n")})
         reqs.append(r)
     for c, im in zip(val_cases, val_impl):
-        reqs.append({"op": "validate", "det": im["det_tree"], "cfg": cfg_json(c["world"]), "key": c["key"],
+        reqs.append({"op": "validate", "det": im["det_tree"], "extras": im["extras"], "cfg": cfg_json(c["world"]), "key": c["key"],
                      "values": [canon_py(v) for v in c["values"]], "custom": False})
     n_before_hist = len(reqs)
     for c, im in zip(hist_cases, hist_impl):
@@ -1107,7 +1278,11 @@ def body(ck: common.Check):
                 d["key"] = st["key"]
                 d.update({k: v for k, v in st["input"].items() if k not in ("native", "cal_n")})
             steps.append(d)
-        reqs.append({"op": "history", "det": im["det_tree"], "cfg": cfg_json(c["world"]), "probes": c["probes"], "steps": steps})
+        reqs.append({"op": "history", "det": im["det_tree"], "extras": im["extras"], "cfg": cfg_json(c["world"]), "probes": c["probes"], "steps": steps})
+    n_before_sv = len(reqs)
+    for c in sv_cases:
+        for v in c["values"]:
+            reqs.append({"op": "eval", "text": v if isinstance(v, str) else render(py_to_lit(v))})
     answers = LeanDriver("C08").batch(reqs)
     for a in answers:
         if "bad" in a:
@@ -1115,7 +1290,8 @@ def body(ck: common.Check):
     a_eval = answers[: len(eval_cases)]
     a_key = answers[len(eval_cases): len(eval_cases) + len(key_cases)]
     a_val = answers[len(eval_cases) + len(key_cases): n_before_hist]
-    a_hist = answers[n_before_hist:]
+    a_hist = answers[n_before_hist:n_before_sv]
+    a_sv = answers[n_before_sv:]
 
     from pyxel.evaluator import eval_entry
 
@@ -1145,7 +1321,7 @@ def body(ck: common.Check):
         ck.count("key:set=" + ("ok" if "ok" in im["set"] else im["set"]["err"]))
         why = key_predicate(c, im)
         if why is not None:
-            ck.violation("C08:" + why[0], why[1], {"case": c, "impl": {k: v for k, v in im.items() if k != "det_tree"}})
+            ck.violation("C08:" + why[0], why[1], {"case": c, "impl": {k: v for k, v in im.items() if k not in ("det_tree", "extras")}})
         # correspondence with the model
         mset = ans["set"]
         impl_view = {"has": strip_msg(im["has"]), "get": strip_msg(im["get"]), "before": im["before"],
@@ -1172,7 +1348,7 @@ def body(ck: common.Check):
             ck.count("validate:run[%s]=%s" % (path, "ok" if "ok" in run else run["err"]))
         why = validate_predicate(c, im)
         if why is not None:
-            ck.violation("C08:" + why[0], why[1], {"case": c, "impl": {k: v for k, v in im.items() if k != "det_tree"}})
+            ck.violation("C08:" + why[0], why[1], {"case": c, "impl": {k: v for k, v in im.items() if k not in ("det_tree", "extras")}})
         if "validate" in im:
             impl_v = {"ok": True} if "ok" in im["validate"] else {"err": im["validate"]["err"]}
             if impl_v != ans["model"]:
@@ -1195,7 +1371,25 @@ def body(ck: common.Check):
             first = next(i for i, (a, b) in enumerate(zip(iv, mv)) if a != b)
             ck.disagreement("history", {k: c[k] for k in ("world", "steps")}, {"step": first, "impl": iv[first]}, mv[first])
 
-    ck.rule = ("history: random pipelines, 3-8 steps on a growing family of processors (Processor.set, copy.deepcopy, "
+    k = 0
+    for c in sv_cases:
+        impl = run_sweepval_impl(c)
+        ck.case({kk: c[kk] for kk in ("world", "key", "values", "mode", "dask")}, nontrivial=True, stream="sweepval")
+        ck.count("sweepval:mode=%s dask=%s" % (c["mode"], c["dask"]))
+        ck.count("sweepval:quoted", sum(1 for v in c["values"] if isinstance(v, str) and v[:1] in "'\""))
+        why = sweepval_predicate(c, impl)
+        if why is not None:
+            ck.violation("C08:" + why[0], why[1], {"case": c, "impl": impl})
+        for v, t in zip(c["values"], c["expected"]):
+            model = norm_model_val(a_sv[k]["py"])
+            k += 1
+            if isinstance(v, str) and model != {"ok": canon_py(untag(t))}:
+                ck.disagreement("sweepval", {"text": v}, {"ok": canon_py(untag(t))}, model)
+
+    ck.rule = ("sweepval: sweeps over a declared argument of an enabled model with 2-5 values — quoted literals ('\"42\"', \"'3.5'\", "
+               "'\"True\"', '\"[1, 2]\"', '\"None\"', …), plain literals, bare words, numbers — product and sequential mode, sequential "
+               "and with_dask observation; the probe model records type and value it receives at every step; "
+               "history: random pipelines, 3-8 steps on a growing family of processors (Processor.set, copy.deepcopy, "
                "Processor.replace, create_new_processor, update_processor) over model-argument / enabled / detector keys that "
                "repeat on purpose, every setting read back and every attribute snapshotted on every live processor after every step; "
                "eval: random literals of the grammar (None/bool/ints to 10^25/decimal+scientific floats/quoted strings/lists "
@@ -1242,15 +1436,19 @@ def replay(rp):
         why = None if (impl == {"ok": case["expected"]} or case["shape"] == "none") else ("eval_entry:wrong-conversion", "text %r gave %s" % (case["text"], impl))
     elif st == "key":
         impl = run_key_impl(case)
-        print("impl:", {k: v for k, v in impl.items() if k != "det_tree"})
+        print("impl:", {k: v for k, v in impl.items() if k not in ("det_tree", "extras")})
         why = key_predicate(case, impl)
+    elif st == "sweepval":
+        impl = run_sweepval_impl(case)
+        print("impl:", impl)
+        why = sweepval_predicate(case, impl)
     elif st == "history":
         impl = run_history_impl(case)
         print("impl:", [{k: v for k, v in g.items() if k != "snaps"} for g in impl["steps"]])
         why = history_predicate(case, impl)
     else:
         impl = run_validate_impl(case)
-        print("impl:", {k: v for k, v in impl.items() if k != "det_tree"})
+        print("impl:", {k: v for k, v in impl.items() if k not in ("det_tree", "extras")})
         why = validate_predicate(case, impl)
     print("REPRODUCED: %s — %s" % why if why else "not reproduced (property holds on this input)")
     return 1 if why else 0
